@@ -618,6 +618,8 @@ class BoundStatement(Statement):
 
         self.raw_values = values
         self.values = []
+        # the routing key is derived from the bound values and cached on first use
+        self._routing_key = None
         for value, col_spec in zip(values, col_meta):
             if value is None:
                 self.values.append(None)
